@@ -50,3 +50,18 @@ claim(
     'A construct outside the table vocabulary (e.g. a regex fast path inside escape()) is an ANALYSIS-ERROR, not a pass.',
     'symbolic transducer extraction + regular-language inclusion',
 )
+
+claim(
+    'C18',
+    'Decided: (R1) each value-shape regex, with the semantics of the call that applies it, accepts only valid HTML '
+    'date/month/week/time/local-date-time/number strings and all of them within the implemented subset (the gap to '
+    'the full grammar - seconds, space separator - is a recorded known finding); (R2) the validators\' bounds and the '
+    'days-per-month code agree with the proleptic Gregorian calendar on every month x (year mod 400); (R3) calendar '
+    'library calls only receive years proven inside 1..9999 by interval arithmetic; (R4) the range-typed input list '
+    'agrees between the :in-range definition, parse_value and match_range; (R5) the decision part of match_range is '
+    'correct for every relative order and None-ness of (min, max, value) for every type, incl. wrapped time ranges. '
+    'Not decided: ISO week counts (the defect is pinned by the existing tests) and numeric conversion results.',
+    'R2 and R5 evaluate the AST over an exhaustive finite abstract domain after checking syntactically that the '
+    'abstraction applies (year only under % k, k | 400; values only compared).',
+    'regex language inclusion vs HTML grammars + finite-domain abstract evaluation of the validators',
+)
